@@ -9,7 +9,7 @@ from ..run import inst
 PROPERTY = 'C09'
 ASSUMPTIONS = ['weights positive (symbolic)', 'grid generator: grid sizes concrete, weights symbolic']
 OUTSIDE = ['nets larger than 3x4x2', 'grid sizes > 4', 'setter histories longer than 3']
-BOUNDS = {'quick': 'NURBS curve(4)/surface(2x3)/volume(2x2x3): all setter sequences of length <= 3 over {ctrlpts, weights, ctrlptsw}; helper conversions; GridWeighted 1x2..3x2 divisions; conversions; weight scaling',
+BOUNDS = {'quick': 'NURBS curve(4)/surface(2x3)/volume(2x2x3): all setter sequences of length <= 3 over {ctrlpts, weights, ctrlptsw}; helper conversions; GridWeighted 1x2..3x2 divisions; conversions; weight scaling; rejected weight assignments on the weighted grid',
           'thorough': 'same with larger nets and grid sizes up to 4'}
 
 
